@@ -13,6 +13,10 @@
            | <hex src> TAB NOTLIT TAB <hex line>
            | <hex src> TAB OOF:<reason> TAB -   |  FUEL TAB -  |  LEXFUEL TAB -  |  NOORACLE TAB -
 
+   literal_driver tokens
+     stdin : <hex src>
+     stdout: <hex src> TAB T TAB <tok>:<hex value>,...    (extracted tokenize, items up to EOF; "-" for none)  |  LEXFUEL TAB -
+
    literal_driver src
      stdin : <tree>                prefix notation, words separated by one space:
                n<dec>  m<dec> (negated)  x<dec> (hex spelling)  b<dec> (binary spelling)
@@ -147,6 +151,14 @@ let run_model line =
     h ^ "\t" ^ r
   | _ -> "BAD"
 
+let run_tokens line =
+  match tokenize (bytes_of_string (string_of_hex line)) with
+  | None -> line ^ "\tLEXFUEL\t-"
+  | Some items ->
+    let parts = List.map (fun (t, v) -> string_of_int (int_of_n t) ^ ":" ^ hex_of_string (string_of_bytes v))
+        (strip_items items) in
+    line ^ "\tT\t" ^ (if parts = [] then "-" else String.concat "," parts)
+
 (* ---- spec ---- *)
 exception Bad
 
@@ -205,8 +217,8 @@ let run_quote line =
 let () =
   let mode = if Array.length Sys.argv > 1 then Sys.argv.(1) else "model" in
   let f = match mode with
-    | "model" -> run_model | "src" -> run_src | "canon" -> run_canon | "quote" -> run_quote
-    | _ -> failwith "mode: model | src | canon | quote" in
+    | "model" -> run_model | "tokens" -> run_tokens | "src" -> run_src | "canon" -> run_canon | "quote" -> run_quote
+    | _ -> failwith "mode: model | tokens | src | canon | quote" in
   let out = Buffer.create 65536 in
   (try
      while true do
